@@ -44,8 +44,10 @@ def scan_sources():
     return {k: sorted(set(v)) for k, v in out.items()}
 
 
-def block(E, k, alphabet, nesting=1, sym_coef=False, pattern=None):
+def block(E, k, alphabet, nesting=1, sym_coef=False, pattern=None, only_rxn=None):
     env.for_path(E)
+    if only_rxn:
+        E.note(_only_rxn=only_rxn)
     S = State()
     m = base_model(E, sym_coef=sym_coef)
     stack = []
@@ -149,7 +151,17 @@ def c03_k3_sub(E):
     block(E, 4, SUB_REV, nesting=2)
 
 
-SUB_REV = [o for o in SUB if o in REVERSIBLE] + ["objective", "remove_genes", "rule"]
+def c03_same_reaction(E):
+    # three steps spent on ONE reaction: the same attribute set twice with the coupled one in between, ...
+    block(E, 3, SAME, nesting=1, only_rxn="R1")
+
+
+def c03_same_reaction_wide(E):
+    block(E, 3, SAME + ["imul", "add_metabolites"], nesting=1, only_rxn="R1")
+
+
+SUB_REV = [o for o in SUB if o in REVERSIBLE] + ["objective", "objective_coefficient", "remove_genes", "rule"]
+SAME = ["lower_bound", "upper_bound", "bounds", "knock_out", "objective_coefficient"]
 
 HARNESSES = [
     H("c03_k1", c03_k1, quick=dict(max_paths=20000, time_budget=40), thorough=dict(max_paths=100000, time_budget=100),
@@ -162,6 +174,11 @@ HARNESSES = [
     H("c03_outer_then_inner", c03_outer_then_inner, quick=dict(max_paths=100000, time_budget=80),
       thorough=dict(max_paths=400000, time_budget=300), witness_every=100,
       bounds="enter, operation, enter, operation, exit, exit over the sub-alphabet"),
+    H("c03_same_reaction", c03_same_reaction, tiers=("quick",), quick=dict(max_paths=100000, time_budget=70), witness_every=100,
+      bounds="one context, all triples of %s applied to the same reaction R1 (symbolic values)" % SAME),
+    H("c03_same_reaction_wide", c03_same_reaction_wide, tiers=("thorough",), thorough=dict(max_paths=600000, time_budget=250),
+      witness_every=200,
+      bounds="one context, all triples of %s applied to the same reaction R1 (symbolic values)" % (SAME + ["imul", "add_metabolites"])),
     H("c03_nested_free", c03_nested_free, tiers=("thorough",), thorough=dict(max_paths=2000000, time_budget=300), witness_every=300,
       bounds="nesting depth 2, any 3 steps (enter-inner / operation / end-block) over the full reversible alphabet (sampled)"),
     H("c03_k2_full", c03_k2_full, tiers=("thorough",), thorough=dict(max_paths=2000000, time_budget=350), witness_every=300,
